@@ -11,6 +11,7 @@ external c_dec32 : string -> int64 * int = "vp_varint_decode32"
 external c_dec64 : string -> int64 * int = "vp_varint_decode64"
 external c_vlen : int64 -> int = "vp_varint_length"
 external c_vlenp : string -> int = "vp_varint_length_packed"
+external c_vlenp_tail : string -> int -> int = "vp_varint_length_packed_tail"
 external c_fenc : int -> int64 -> int -> string = "vp_fixed_encode"
 external c_fdec : int -> string -> int -> int64 = "vp_fixed_decode"
 
@@ -115,6 +116,11 @@ let check_bytes acc klass (s : string) =
   (* spec: 0 when no terminating byte, else index of the first byte < 128, plus 1 *)
   let exp = (let r = ref 0 in (try String.iteri (fun i c -> if Char.code c < 128 then (r := i + 1; raise Exit)) s with Exit -> ()); !r) in
   if vlp <> exp then fail acc ~kind:"spec_violation" ~what:"varint_length_packed" (JO [ "hex", JS (hex s); "got", JI vlp; "expected", JI exp ]);
+  (* the result depends on the len_data bytes given only: the same with terminating bytes (0x05, 0x7f, 0x00) behind the buffer *)
+  List.iter (fun tail ->
+    let v = c_vlenp_tail s tail in
+    if v <> exp then fail acc ~kind:"spec_violation" ~what:"varint_length_packed depends on a byte behind the buffer it was given"
+        (JO [ "hex", JS (hex s); "byte_behind", JI tail; "got", JI v; "expected", JI exp ])) [ 0x05; 0x7f; 0x00 ];
   (* decoders: only when the model says the read stays inside the string *)
   (match varint_decode64 l with
    | Ok (mv, ml) ->
